@@ -102,6 +102,7 @@ FVE(e) ==
       [] e.k \in {"neg", "not", "get", "typeof"} -> FVE(e.e)
       [] e.k = "bin" -> FVE(e.l) \cup FVE(e.r)
       [] e.k = "list" -> FVSeq(e.es, 1)
+      [] e.k = "paren" -> FVE(e.e)
       [] e.k = "map" -> FVSeq([j \in 1..Len(e.kvs) |-> e.kvs[j].key], 1) \cup FVSeq([j \in 1..Len(e.kvs) |-> e.kvs[j].val], 1)
       [] e.k = "idx" -> FVE(e.o) \cup FVE(e.i)
       [] e.k = "call" -> FVE(e.f) \cup FVSeq(e.args, 1)
@@ -256,6 +257,7 @@ EvalSeq(es, i, env, st, acc) ==
 Eval(e, env, st) ==
     IF ~IsOk(st) THEN R(VNil, st)
     ELSE CASE e.k = "int" -> R(VInt(e.v), st)
+      [] e.k = "paren" -> Eval(e.e, env, st)           \* `( e )`: needed in source where an atom takes a single postfix
       [] e.k = "bool" -> R(VBool(e.v), st)
       [] e.k = "str" -> R(VStr(e.v), st)
       [] e.k = "nil" -> R(VNil, st)
